@@ -163,7 +163,7 @@ struct P {
                 return real(ve::c_pi()); // acos(-1) is how the printer writes pi
             return real(ve::c_pi() * verif_rational(1, 2) - ve::odd_fn("ASIN", ::asin, A(0)));
         }
-        if (f == "sqrt") return real(ve::ipow(ve::root12_of(A(0)), 6));
+        if (f == "sqrt") return real(a.size() == 1 && a[0].exact() ? ve::sqrt_of(A(0)) : ve::ipow(ve::root12_of(A(0)), 6));
         if (f == "cbrt") return real(ve::ipow(ve::root12_of(A(0)), 4));
         if (f == "fabs") { double u = A(0); return real(u < 0 ? -u : u); }
         if (f == "fmax") { double u = A(0), v = A(1); return real(u > v ? u : v); }
